@@ -35,9 +35,10 @@ def build(tier):
     obs += [
         Ob('O4-edits', u, 'h_edits', 'setWhiteMove/setCastleMask/setEpSquare move the hash by exactly the right keys and reverting them restores the state (null-move style edits)',
            unwind=65, functions=F[3:4], bounds='arbitrary state; any target values'),
-        Ob('O5-scratchhash', u, 'h_scratchhash', 'computeZobristHash = XOR of piece-square, side, castle, ep-file keys; pawn key and material signature likewise; so positions equal under the repetition rule have equal keys',
-           unwind=65, timeout=900, functions=['Position::computeZobristHash (position.cpp:512-529)'], bounds='boards with up to 6 men of any kind (codes 0..12) on any distinct squares, rest empty; squares are treated independently by the code'),
-        Ob('O6-serialize', u, 'h_serialize', 'deSerialize(serialize(p)) restores board, flags, counters and recomputes every derived field to its from-scratch value',
-           unwind=65, timeout=1200, mem_gb=12, functions=['Position::serialize/deSerialize (position.cpp:420-499)'], bounds='boards with up to 6 men of any kind on any distinct squares, rest empty; halfMoveClock <= 255, fullMoveCounter <= 65535'),
     ]
+    for g in range(16):
+        obs.append(Ob('O5-scratchhash@g%d' % g, u, 'h_scratchhash', 'computeZobristHash = XOR of piece-square, side, castle, ep-file keys; pawn key and material signature likewise (so positions equal under the repetition rule have equal keys); men on squares %d..%d' % (4 * g, 4 * g + 3),
+           unwind=65, param=g, timeout=900, backend='kissat', functions=['Position::computeZobristHash (position.cpp:512-529)'], bounds='any piece code 0..12 on each of the four squares of the group, rest of the board empty; any side/castling/ep; the 16 groups cover every (piece, square) pair'))
+        obs.append(Ob('O6-serialize@g%d' % g, u, 'h_serialize', 'deSerialize(serialize(p)) restores board, flags, counters and recomputes every derived field to its from-scratch value; men on squares %d..%d' % (4 * g, 4 * g + 3),
+           unwind=65, param=g, timeout=900, backend='kissat', functions=['Position::serialize/deSerialize (position.cpp:420-499)'], bounds='any piece code 0..12 on each of the four squares of the group, rest empty; halfMoveClock <= 255, fullMoveCounter <= 65535; the 16 groups cover every (piece, square) pair'))
     return [u], obs
